@@ -76,7 +76,10 @@ def merge( ranges, reach=1, limit=None ):
     10000 boundary (to avoid merging different register types). """
     input		= iter( sorted( ranges ))
 
-    base, length	= next( input )
+    try:
+        base, length	= next( input )
+    except StopIteration:
+        return # no ranges; nothing to merge
     for address, count in input:
         if length:
             if ( address // 10000 == base // 10000
